@@ -18,6 +18,7 @@ import (
 	"context"
 	"errors"
 	"fmt"
+	"slices"
 	"sort"
 	"strings"
 	"sync"
@@ -529,12 +530,15 @@ func (d *Datastore) runDeviationUpdate(ctx context.Context, dm map[string]sdcpb.
 			continue
 		}
 
-		intentsUpdates := d.cacheClient.Read(ctx, d.Name(), &cache.Opts{
-			Store:         cachepb.Store_INTENDED,
-			Owner:         "",
-			Priority:      0,
-			PriorityCount: 0,
-		}, [][]string{upd.GetPath()}, 0)
+		// read the entries of all the intents for the path (all priorities),
+		// the read is a prefix read, so sort out the entries of paths further down
+		intentsUpdates := slices.DeleteFunc(d.cacheClient.Read(ctx, d.Name(), &cache.Opts{
+			Store:    cachepb.Store_INTENDED,
+			Owner:    "",
+			Priority: -1,
+		}, [][]string{upd.GetPath()}, 0), func(u *cache.Update) bool {
+			return !slices.Equal(u.GetPath(), upd.GetPath())
+		})
 		if len(intentsUpdates) == 0 {
 			log.Debugf("%s: has unhandled config %v: %v", d.Name(), upd.GetPath(), v)
 			// TODO: generate an unhandled config deviation
